@@ -36,7 +36,7 @@ type c11World struct {
 	gca     ref.Key
 	sink    *world.UDPSink
 	fakes   []*world.FakeServer
-	keys    [][32]byte          // all configured server keys (fake and dead)
+	keys    [][32]byte // all configured server keys (fake and dead)
 	fakeOf  map[[32]byte]*world.FakeServer
 	queue   map[[32]byte][]string // per server: outcomes for the next connections
 	hist    []string
@@ -316,7 +316,7 @@ func (w *c11World) round(t *rapid.T) {
 	if ps := client.VerifPanics(); len(ps) > 0 {
 		w.fail("client goroutine panicked: %s: %s", ps[0].Where, ps[0].Value)
 	}
-	if !w.c.VerifTryLock() {
+	if !clientLockFree(w.c) {
 		w.fail("the client mutex is still held after the sync round returned (%v)", ok)
 	}
 	after := w.c.VerifState()
@@ -547,7 +547,7 @@ func TestC11ResyncAfterFailure(t *testing.T) {
 			for i := 0; i < 5; i++ {
 				w.tickEmits()
 			}
-			if !w.c.VerifTryLock() {
+			if !clientLockFree(w.c) {
 				w.fail("client mutex held although no round can be running")
 			}
 			ev.Label("c11:resync-no-eligible-server")
@@ -579,7 +579,6 @@ func TestC11ResyncAfterFailure(t *testing.T) {
 	})
 }
 
-
 // TestC11StalledServer: a server accepts the connection and does not answer
 // for a while. The sync attempt runs in its own goroutine (launched by the
 // client's loop), so the reporting loop must keep emitting readings and the
@@ -610,7 +609,7 @@ func TestC11StalledServer(t *testing.T) {
 		w.tickEmits() // launches the loop's sync round (old last-sync file)
 		n := rapid.IntRange(3, 6).Draw(t, "ticksDuringStall")
 		for i := 0; i < n; i++ {
-			if !w.c.VerifTryLock() {
+			if !clientLockFree(w.c) {
 				w.fail("the client mutex is held while a sync attempt waits for a silent server")
 			}
 			w.tickEmits()
